@@ -39,6 +39,8 @@ def main():
         sv = sys.argv[sys.argv.index("--seeds") + 1]
         seeds = [int(x) for x in sv.split(",")]
         args = [a for a in args if a != sv]
+    if "--out" in sys.argv:
+        args = [a for a in args if a != sys.argv[sys.argv.index("--out") + 1]]
     ids = args or sorted(d for d in os.listdir(SEEDED) if os.path.isdir(os.path.join(SEEDED, d)))
     results = {}
     for sid in ids:
@@ -93,7 +95,10 @@ def main():
         r = results[sid]
         print("%-14s %-4s detected=%s demo=%s tests=[%s] %s" % (sid, prop, r.get("detected"), r.get("demo_exit_patched"),
                                                                  r.get("tests"), (r.get("what") or r.get("error") or "")[:110]))
-    with open(os.path.join(SEEDED, "RESULTS.json"), "w") as f:
+    outp = os.path.join(SEEDED, "RESULTS.json")
+    if "--out" in sys.argv:
+        outp = sys.argv[sys.argv.index("--out") + 1]
+    with open(outp, "w") as f:
         json.dump(results, f, indent=1)
 
 
